@@ -1,11 +1,9 @@
 (* C13 -- singleplayer and listen-server logic sees each local event exactly once.
-   Pinned statements about RV.Events.Local (proofs in Events/Local_proofs.v when present). *)
-From RV Require Import Lib.Res Events.Local.
+   Pinned statements about RV.Events.Local (proofs in Events/Local_proofs.v, vocabulary in Events/LocalSpec.v). *)
+From RV Require Import Lib.Res Events.Local Events.LocalSpec Events.Local_proofs.
 Open Scope N_scope.
 
 (* computed instances: the regression scenarios of the two fixed defects *)
-Definition run_local (a : lapp) (steps : list lstep) : lapp * list (list lobs) :=
-  fold_left (fun acc s => let '(a, outs) := acc in let '(a', o) := lstep_run a s in (a', outs ++ [o])) steps (a, []).
 
 (* D14: events already sent to the remote server are not handled again locally after the disconnect *)
 Theorem C13_sent_events_not_replayed_after_disconnect :
@@ -23,3 +21,251 @@ Proof. vm_compute. reflexivity. Qed.
 
 Print Assumptions C13_sent_events_not_replayed_after_disconnect.
 Print Assumptions C13_trigger_before_connecting_is_observed.
+
+(* ---------- proved for all runs ---------- *)
+(* the invariant behind everything: in every reachable app both client event buffers have consecutive ids
+   (a_start + |a| = b_start, b_start + |b| = count), the send cursors are <= count, only local observations wait in la_next *)
+Theorem C13_reachable_linv : forall full steps, linv (fst (run_local (lapp_init full) steps)).
+Proof. exact reachable_linv. Qed.
+Print Assumptions C13_reachable_linv.
+
+(* item 1: in one frame of an app with the client plugins every client event / trigger (carried over or emitted now)
+   takes exactly one path, with its multiplicity: re-emitted locally while disconnected (and drained), sent while connected
+   (and consumed by the cursor), stored untouched while connecting *)
+Theorem C13_client_event_one_path_per_frame : forall a fixed emits s,
+  linv a -> la_full a = true ->
+  let a' := fst (lframe a fixed emits) in
+  let out := snd (lframe a fixed emits) in
+  let n_ce := (count_seq s (carried_ce a) + count_seq s (emits_ce emits))%nat in
+  let n_ct := (count_seq s (carried_ct a) + count_seq s (emits_ct emits))%nat in
+  (disconnected a = true ->
+     count_in (ObsFromCE s) (la_next a') = n_ce /\ count_in (ObsFromCT s) (la_next a') = n_ct /\
+     count_in (NetC2S_CE s) out = 0%nat /\ count_in (NetC2S_CT s) out = 0%nat /\
+     ev_all (la_ce a') = [] /\ ev_all (la_ct a') = []) /\
+  (connected a = true ->
+     count_in (NetC2S_CE s) out = n_ce /\ count_in (NetC2S_CT s) out = n_ct /\
+     count_in (ObsFromCE s) (la_next a') = 0%nat /\ count_in (ObsFromCT s) (la_next a') = 0%nat /\
+     unread (la_ce a') (la_ce_cursor a') = [] /\ unread (la_ct a') (la_ct_cursor a') = []) /\
+  (la_status a = LConnecting ->
+     count_in (NetC2S_CE s) out = 0%nat /\ count_in (NetC2S_CT s) out = 0%nat /\
+     count_in (ObsFromCE s) (la_next a') = 0%nat /\ count_in (ObsFromCT s) (la_next a') = 0%nat /\
+     unread (la_ce a') (la_ce_cursor a') = carried_ce a ++ emits_ce emits /\
+     unread (la_ct a') (la_ct_cursor a') = carried_ct a ++ emits_ct emits).
+Proof. exact client_event_one_path_per_frame. Qed.
+Print Assumptions C13_client_event_one_path_per_frame.
+
+(* item 1 with distinct sequence numbers: a number never emitted before and emitted once in this frame appears exactly once *)
+Theorem C13_client_event_one_path_per_frame_once : forall full pre fixed emits s,
+  let a := fst (run_local (lapp_init full) pre) in
+  let a' := fst (lframe a fixed emits) in
+  let out := snd (lframe a fixed emits) in
+  la_full a = true ->
+  (count_seq s (emits_ce (run_emits pre)) = 0%nat -> count_seq s (emits_ce emits) = 1%nat ->
+     (disconnected a = true -> count_in (ObsFromCE s) (la_next a') = 1%nat /\ count_in (NetC2S_CE s) out = 0%nat) /\
+     (connected a = true -> count_in (NetC2S_CE s) out = 1%nat /\ count_in (ObsFromCE s) (la_next a') = 0%nat) /\
+     (la_status a = LConnecting -> count_in (NetC2S_CE s) out = 0%nat /\ count_in (ObsFromCE s) (la_next a') = 0%nat /\
+                                   count_seq s (unread (la_ce a') (la_ce_cursor a')) = 1%nat)) /\
+  (count_seq s (emits_ct (run_emits pre)) = 0%nat -> count_seq s (emits_ct emits) = 1%nat ->
+     (disconnected a = true -> count_in (ObsFromCT s) (la_next a') = 1%nat /\ count_in (NetC2S_CT s) out = 0%nat) /\
+     (connected a = true -> count_in (NetC2S_CT s) out = 1%nat /\ count_in (ObsFromCT s) (la_next a') = 0%nat) /\
+     (la_status a = LConnecting -> count_in (NetC2S_CT s) out = 0%nat /\ count_in (ObsFromCT s) (la_next a') = 0%nat /\
+                                   count_seq s (unread (la_ct a') (la_ct_cursor a')) = 1%nat)).
+Proof. exact client_event_one_path_per_frame_once. Qed.
+Print Assumptions C13_client_event_one_path_per_frame_once.
+
+(* item 2: steps other than LFrame produce no output and do not touch la_next; the next LFrame outputs every waiting local
+   observation with its multiplicity (ObsGotST only with the client plugins, never without) and replaces la_next *)
+Theorem C13_local_reemission_observed_next_frame : forall a mid fixed emits o,
+  linv a -> no_frames mid = true -> is_local_obs o = true ->
+  let a1 := fst (run_local a mid) in
+  count_obs o (snd (run_local a mid)) = 0%nat /\
+  la_next a1 = la_next a /\
+  count_in o (snd (lframe a1 fixed emits)) = (if is_got_st o && negb (la_full a) then 0%nat else count_in o (la_next a)) /\
+  (forall nx, la_next (fst (lframe (set_next a1 nx) fixed emits)) = la_next (fst (lframe a1 fixed emits))).
+Proof. exact local_reemission_observed_next_frame. Qed.
+Print Assumptions C13_local_reemission_observed_next_frame.
+
+(* item 3: over any run, local re-emissions plus network sends of a sequence number never exceed its emissions; at most one if emitted at most once *)
+Theorem C13_never_both_never_twice : forall full steps s,
+  let outs := snd (run_local (lapp_init full) steps) in
+  (count_obs (ObsFromCE s) outs + count_obs (NetC2S_CE s) outs <= count_seq s (emits_ce (run_emits steps)))%nat /\
+  (count_obs (ObsFromCT s) outs + count_obs (NetC2S_CT s) outs <= count_seq s (emits_ct (run_emits steps)))%nat /\
+  ((count_seq s (emits_ce (run_emits steps)) <= 1)%nat ->
+     (count_obs (ObsFromCE s) outs + count_obs (NetC2S_CE s) outs <= 1)%nat) /\
+  ((count_seq s (emits_ct (run_emits steps)) <= 1)%nat ->
+     (count_obs (ObsFromCT s) outs + count_obs (NetC2S_CT s) outs <= 1)%nat).
+Proof. exact never_both_never_twice. Qed.
+Print Assumptions C13_never_both_never_twice.
+
+(* D14, the key fact: what a cursor at id c still reads is the buffer without its first c - a_start elements, i.e. the ids >= c *)
+Theorem C13_unread_ids : forall A (e : evbuf A) c, ev_wf e -> c <= ev_count e ->
+  unread e c = skipn (N.to_nat (c - ev_a_start e)) (ev_all e).
+Proof. exact unread_ids. Qed.
+Print Assumptions C13_unread_ids.
+
+(* D14: `resend_locally` re-emits exactly what the send cursor has not consumed, and drains the buffers *)
+Theorem C13_resend_skips_sent : forall a fixed emits,
+  linv a -> la_full a = true -> disconnected a = true ->
+  la_next (fst (lframe a fixed emits)) =
+  (map ObsFromCE (unread (frame_ce a emits) (la_ce_cursor a)) ++ map ObsFromCT (unread (frame_ct a emits) (la_ct_cursor a)))
+  ++ local_s2c_of (carried_se a ++ emits_se emits) (carried_st a ++ emits_st emits)
+  /\ ev_all (la_ce (fst (lframe a fixed emits))) = [] /\ ev_all (la_ct (fst (lframe a fixed emits))) = [].
+Proof. exact resend_skips_sent. Qed.
+Print Assumptions C13_resend_skips_sent.
+
+(* item 4: emitted while disconnected (singleplayer / server) and followed by one more frame: observed by server-side logic exactly once
+   and never sent; emitted while connected: sent exactly once and never observed locally -- whatever happens in the rest of the run *)
+Theorem C13_exactly_once_when_server_or_singleplayer : forall full pre fixed emits post s,
+  let steps := pre ++ LFrame fixed emits :: post in
+  let a := fst (run_local (lapp_init full) pre) in
+  let outs := snd (run_local (lapp_init full) steps) in
+  la_full a = true ->
+  ((count_seq s (emits_ce (run_emits steps)) <= 1)%nat -> In (EmitCE s) emits ->
+     (disconnected a = true -> existsb is_frame post = true ->
+        count_obs (ObsFromCE s) outs = 1%nat /\ count_obs (NetC2S_CE s) outs = 0%nat) /\
+     (connected a = true -> count_obs (NetC2S_CE s) outs = 1%nat /\ count_obs (ObsFromCE s) outs = 0%nat)) /\
+  ((count_seq s (emits_ct (run_emits steps)) <= 1)%nat -> In (EmitCT s) emits ->
+     (disconnected a = true -> existsb is_frame post = true ->
+        count_obs (ObsFromCT s) outs = 1%nat /\ count_obs (NetC2S_CT s) outs = 0%nat) /\
+     (connected a = true -> count_obs (NetC2S_CT s) outs = 1%nat /\ count_obs (ObsFromCT s) outs = 0%nat)).
+Proof. exact exactly_once_when_server_or_singleplayer. Qed.
+Print Assumptions C13_exactly_once_when_server_or_singleplayer.
+
+(* item 5: client->server messages only leave a frame executed while connected (with the client plugins),
+   server->client messages only while the server runs and has a remote client *)
+Theorem C13_nothing_on_network_without_connection : forall a st o,
+  linv a -> In o (snd (lstep_run a st)) ->
+  (is_c2s o = true -> is_frame st = true /\ la_full a = true /\ connected a = true) /\
+  (is_s2c o = true -> is_frame st = true /\ la_running a = true /\ la_remote a = true).
+Proof. exact nothing_on_network_without_connection. Qed.
+Print Assumptions C13_nothing_on_network_without_connection.
+
+(* item 5 for the states of runs from the initial app *)
+Theorem C13_nothing_on_network_without_connection_run : forall full pre st o,
+  let a := fst (run_local (lapp_init full) pre) in
+  In o (snd (lstep_run a st)) ->
+  (is_c2s o = true -> is_frame st = true /\ la_full a = true /\ connected a = true) /\
+  (is_s2c o = true -> is_frame st = true /\ la_running a = true /\ la_remote a = true).
+Proof. exact nothing_on_network_without_connection_run. Qed.
+Print Assumptions C13_nothing_on_network_without_connection_run.
+
+(* item 6: in a frame executed as server or singleplayer, the local copies written and the messages sent are exactly the
+   events whose mode has the local server / a remote client among the recipients; the ToClients buffers are drained *)
+Theorem C13_server_event_local_copy : forall a fixed emits s,
+  linv a -> server_or_singleplayer a = true ->
+  let a' := fst (lframe a fixed emits) in
+  let out := snd (lframe a fixed emits) in
+  let all_se := carried_se a ++ emits_se emits in
+  let all_st := carried_st a ++ emits_st emits in
+  count_in (ObsGotSE s) (la_next a') = count_p (se_local s) all_se /\
+  count_in (ObsGotST s) (la_next a') = count_p (se_local s) all_st /\
+  count_in (NetS2C_SE s) out = (if la_running a && la_remote a then count_p (se_remote s) all_se else 0%nat) /\
+  count_in (NetS2C_ST s) out = (if la_running a && la_remote a then count_p (se_remote s) all_st else 0%nat) /\
+  ev_all (la_se a') = [] /\ ev_all (la_st a') = [].
+Proof. exact server_event_local_copy. Qed.
+Print Assumptions C13_server_event_local_copy.
+
+(* item 6 with a distinct sequence number: local copy exactly once iff local_recipient, message exactly once iff running, remote client, remote_recipient *)
+Theorem C13_server_event_local_copy_once : forall a fixed emits m s,
+  linv a -> server_or_singleplayer a = true ->
+  let a' := fst (lframe a fixed emits) in
+  let out := snd (lframe a fixed emits) in
+  let all_se := carried_se a ++ emits_se emits in
+  let all_st := carried_st a ++ emits_st emits in
+  ((count_p (se_is s) all_se <= 1)%nat -> In (m, s) all_se ->
+     count_in (ObsGotSE s) (la_next a') = (if local_recipient m then 1 else 0)%nat /\
+     count_in (NetS2C_SE s) out = (if la_running a && la_remote a && remote_recipient m then 1 else 0)%nat) /\
+  ((count_p (se_is s) all_st <= 1)%nat -> In (m, s) all_st ->
+     count_in (ObsGotST s) (la_next a') = (if local_recipient m then 1 else 0)%nat /\
+     count_in (NetS2C_ST s) out = (if la_running a && la_remote a && remote_recipient m then 1 else 0)%nat).
+Proof. exact server_event_local_copy_once. Qed.
+Print Assumptions C13_server_event_local_copy_once.
+
+(* item 6 over runs: local observations (any run) and messages (runs through supported configurations) never exceed the emissions *)
+Theorem C13_server_event_never_twice : forall full steps s,
+  let outs := snd (run_local (lapp_init full) steps) in
+  (count_obs (ObsGotSE s) outs <= count_p (se_local s) (emits_se (run_emits steps)))%nat /\
+  (count_obs (ObsGotST s) outs <= count_p (se_local s) (emits_st (run_emits steps)))%nat /\
+  (all_supported (lapp_init full) steps = true ->
+     (count_obs (NetS2C_SE s) outs <= count_p (se_remote s) (emits_se (run_emits steps)))%nat /\
+     (count_obs (NetS2C_ST s) outs <= count_p (se_remote s) (emits_st (run_emits steps)))%nat) /\
+  ((count_p (se_is s) (emits_se (run_emits steps)) <= 1)%nat ->
+     (count_obs (ObsGotSE s) outs <= 1)%nat /\
+     (all_supported (lapp_init full) steps = true -> (count_obs (NetS2C_SE s) outs <= 1)%nat)) /\
+  ((count_p (se_is s) (emits_st (run_emits steps)) <= 1)%nat ->
+     (count_obs (ObsGotST s) outs <= 1)%nat /\
+     (all_supported (lapp_init full) steps = true -> (count_obs (NetS2C_ST s) outs <= 1)%nat)).
+Proof. exact server_event_never_twice. Qed.
+Print Assumptions C13_server_event_never_twice.
+
+(* item 6 over runs: a server event emitted as server or singleplayer and followed by one more frame is observed locally
+   exactly once precisely when the local server is a recipient (triggers: and the client plugins are present) *)
+Theorem C13_server_event_observed_exactly_once : forall full pre fixed emits post m s,
+  let steps := pre ++ LFrame fixed emits :: post in
+  let a := fst (run_local (lapp_init full) pre) in
+  let outs := snd (run_local (lapp_init full) steps) in
+  server_or_singleplayer a = true -> existsb is_frame post = true ->
+  ((count_p (se_is s) (emits_se (run_emits steps)) <= 1)%nat -> In (EmitSE m s) emits ->
+     count_obs (ObsGotSE s) outs = (if local_recipient m then 1 else 0)%nat) /\
+  ((count_p (se_is s) (emits_st (run_emits steps)) <= 1)%nat -> In (EmitST m s) emits ->
+     count_obs (ObsGotST s) outs = (if local_recipient m && full then 1 else 0)%nat).
+Proof. exact server_event_observed_exactly_once. Qed.
+Print Assumptions C13_server_event_observed_exactly_once.
+
+(* item 7: without the client plugins client events / triggers are never routed, server triggers never observed locally, nothing occurs twice *)
+Theorem C13_dedicated_server_never_twice : forall steps s,
+  let outs := snd (run_local (lapp_init false) steps) in
+  count_obs (ObsFromCE s) outs = 0%nat /\ count_obs (ObsFromCT s) outs = 0%nat /\
+  count_obs (NetC2S_CE s) outs = 0%nat /\ count_obs (NetC2S_CT s) outs = 0%nat /\
+  count_obs (ObsGotST s) outs = 0%nat /\
+  (count_obs (ObsGotSE s) outs <= count_p (se_local s) (emits_se (run_emits steps)))%nat /\
+  (count_obs (NetS2C_SE s) outs <= count_p (se_remote s) (emits_se (run_emits steps)))%nat /\
+  (count_obs (NetS2C_ST s) outs <= count_p (se_remote s) (emits_st (run_emits steps)))%nat /\
+  ((count_p (se_is s) (emits_se (run_emits steps)) <= 1)%nat ->
+     (count_obs (ObsGotSE s) outs <= 1)%nat /\ (count_obs (NetS2C_SE s) outs <= 1)%nat) /\
+  ((count_p (se_is s) (emits_st (run_emits steps)) <= 1)%nat -> (count_obs (NetS2C_ST s) outs <= 1)%nat).
+Proof. exact dedicated_server_never_twice. Qed.
+Print Assumptions C13_dedicated_server_never_twice.
+
+(* ---------- non-vacuity ---------- *)
+(* a listen server with one remote client, all five send modes for events and triggers *)
+Example listen_server_all_modes :
+  snd (run_local (lapp_init true)
+         [LServer true; LRemote true;
+          LFrame true [EmitSE LBroadcast 1; EmitSE LExceptServer 2; EmitSE LDirectServer 3; EmitSE LExceptRemote 4; EmitSE LDirectRemote 5;
+                       EmitST LBroadcast 11; EmitST LExceptServer 12; EmitST LDirectServer 13; EmitST LExceptRemote 14; EmitST LDirectRemote 15;
+                       EmitCE 21; EmitCT 22];
+          LFrame false []; LFrame true []])
+  = [[]; [];
+     [NetS2C_SE 1; NetS2C_SE 2; NetS2C_SE 5; NetS2C_ST 11; NetS2C_ST 12; NetS2C_ST 15];
+     [ObsFromCE 21; ObsFromCT 22; ObsGotSE 1; ObsGotSE 3; ObsGotSE 4; ObsGotST 11; ObsGotST 13; ObsGotST 14];
+     []]
+  /\ all_supported (lapp_init true)
+       [LServer true; LRemote true; LFrame true [EmitSE LBroadcast 1]; LFrame false []; LFrame true []] = true.
+Proof. vm_compute. split; reflexivity. Qed.
+
+(* a client connects, sends, disconnects: what was sent is not replayed, what was written while
+   connecting or after the disconnect is handled locally, once *)
+Example client_connects_sends_disconnects :
+  snd (run_local (lapp_init true)
+         [LClient LConnecting; LFrame false [EmitCE 1];
+          LClient LConnected; LFrame false [EmitCE 2; EmitCT 3];
+          LFrame false [EmitCE 4];
+          LClient LDisconnected; LFrame false [EmitCE 5]; LFrame false []; LFrame true []; LFrame true []])
+  = [[]; []; []; [NetC2S_CE 2; NetC2S_CT 3]; [NetC2S_CE 4]; []; []; [ObsFromCE 5]; []; []].
+Proof. vm_compute. reflexivity. Qed.
+
+(* a dedicated server (no client plugins): client events are never routed, server events still reach
+   the local queue once, server triggers are never observed locally *)
+Example dedicated_server_run :
+  snd (run_local (lapp_init false)
+         [LServer true; LRemote true; LFrame true [EmitCE 1; EmitCT 2; EmitSE LBroadcast 3; EmitST LBroadcast 4];
+          LFrame true []; LFrame true []])
+  = [[]; []; [NetS2C_SE 3; NetS2C_ST 4]; [ObsGotSE 3]; []].
+Proof. vm_compute. reflexivity. Qed.
+
+(* the hypotheses of the per-frame theorems are satisfiable in reachable states *)
+Example hypotheses_satisfiable :
+  let a := fst (run_local (lapp_init true) [LClient LConnected; LFrame true [EmitCE 1]]) in
+  la_full a = true /\ connected a = true /\ count_seq 7 (emits_ce (run_emits [LClient LConnected; LFrame true [EmitCE 1]])) = 0%nat.
+Proof. vm_compute. repeat split. Qed.
